@@ -8,6 +8,7 @@ Import ListNotations.
 Local Open Scope N_scope.
 
 Section File.
+Variable up : N -> bool.
 Variable fmt : N -> str.
 Variable prs : str -> option N.
 Variable hex : bool.
@@ -36,21 +37,21 @@ Definition w_item (it : item) : list piece :=
 
 Definition wf_item (it : item) : Prop :=
   match it with
-  | IValueTable x => wf_value_table x
-  | IMessage x => wf_message x
-  | IMsgTransmitter x => wf_msg_transmitter x
-  | IEnvVar x => wf_env_var x
-  | IEnvVarData x => wf_env_var_data x
-  | ISignalType x => wf_signal_type x
-  | ISignalTypeRef x => wf_signal_type_ref x
-  | IComment x => wf_comment x
+  | IValueTable x => wf_value_table up x
+  | IMessage x => wf_message up x
+  | IMsgTransmitter x => wf_msg_transmitter up x
+  | IEnvVar x => wf_env_var up x
+  | IEnvVarData x => wf_env_var_data up x
+  | ISignalType x => wf_signal_type up x
+  | ISignalTypeRef x => wf_signal_type_ref up x
+  | IComment x => wf_comment up x
   | IAttribute x => wf_attribute x
   | IAttrDefault x => wf_attr_default x
-  | IAttrValue x => wf_attr_value x
-  | IValueEncoding x => wf_value_encoding x
-  | ISignalGroup x => wf_signal_group x
-  | ISigExtValueType x => wf_sig_ext_value_type x
-  | IExtMux x => wf_ext_mux x
+  | IAttrValue x => wf_attr_value up x
+  | IValueEncoding x => wf_value_encoding up x
+  | ISignalGroup x => wf_signal_group up x
+  | ISigExtValueType x => wf_sig_ext_value_type up x
+  | IExtMux x => wf_ext_mux up x
   | _ => False
   end.
 
@@ -73,35 +74,35 @@ Lemma item_step : forall it rest fl, wf_item it -> rest_ok rest ->
     parse_section prs hex k fl ((KKeyword, kwd) :: T) T = Some (POk (norm_item it) rest, fl).
 Proof.
   intros it rest fl Hwf Hrest. destruct it; cbn [wf_item] in Hwf; try contradiction; cbn [w_item norm_item].
-  - destruct (parse_value_table_ok x rest Hwf) as [HT HP]. do 3 eexists. split; [exact HT|]. split; [reflexivity|]. split; [reflexivity|].
+  - destruct (parse_value_table_ok up x rest Hwf) as [HT HP]. do 3 eexists. split; [exact HT|]. split; [reflexivity|]. split; [reflexivity|].
     cbn [parse_section]. rewrite HP. reflexivity.
-  - destruct (parse_message_ok fmt prs Horacle x rest Hwf Hrest) as [T [HT HP]]. exists kw_BO, T, KwMessage. split; [exact HT|]. split; [reflexivity|]. split; [reflexivity|].
+  - destruct (parse_message_ok up fmt prs Horacle x rest Hwf Hrest) as [T [HT HP]]. exists kw_BO, T, KwMessage. split; [exact HT|]. split; [reflexivity|]. split; [reflexivity|].
     cbn [parse_section]. rewrite HP. reflexivity.
-  - destruct (parse_msg_transmitter_ok x rest Hwf) as [T [HT HP]]. exists kw_BO_TX_BU, T, KwMessageTransmitter. split; [exact HT|]. split; [reflexivity|]. split; [reflexivity|].
+  - destruct (parse_msg_transmitter_ok up x rest Hwf) as [T [HT HP]]. exists kw_BO_TX_BU, T, KwMessageTransmitter. split; [exact HT|]. split; [reflexivity|]. split; [reflexivity|].
     cbn [parse_section]. rewrite HP. reflexivity.
-  - destruct (parse_env_var_ok fmt prs Horacle x rest Hwf) as [T [HT HP]]. exists kw_EV, T, KwEnvVar. split; [exact HT|]. split; [reflexivity|]. split; [reflexivity|].
+  - destruct (parse_env_var_ok up fmt prs Horacle x rest Hwf) as [T [HT HP]]. exists kw_EV, T, KwEnvVar. split; [exact HT|]. split; [reflexivity|]. split; [reflexivity|].
     cbn [parse_section]. rewrite HP. reflexivity.
-  - destruct (parse_env_var_data_ok x rest Hwf) as [T [HT HP]]. exists kw_ENVVAR_DATA, T, KwEnvVarData. split; [exact HT|]. split; [reflexivity|]. split; [reflexivity|].
+  - destruct (parse_env_var_data_ok up x rest Hwf) as [T [HT HP]]. exists kw_ENVVAR_DATA, T, KwEnvVarData. split; [exact HT|]. split; [reflexivity|]. split; [reflexivity|].
     cbn [parse_section]. rewrite HP. reflexivity.
-  - destruct (parse_signal_type_ok fmt prs Horacle x rest Hwf) as [T [HT HP]]. exists kw_SGTYPE, T, KwSignalType. split; [exact HT|]. split; [reflexivity|]. split; [reflexivity|].
+  - destruct (parse_signal_type_ok up fmt prs Horacle x rest Hwf) as [T [HT HP]]. exists kw_SGTYPE, T, KwSignalType. split; [exact HT|]. split; [reflexivity|]. split; [reflexivity|].
     cbn [parse_section]. rewrite HP. reflexivity.
-  - destruct (parse_signal_type_ref_ok prs x rest Hwf) as [T [HT HP]]. exists kw_SGTYPE, T, KwSignalType. split; [exact HT|]. split; [reflexivity|]. split; [reflexivity|].
+  - destruct (parse_signal_type_ref_ok up prs x rest Hwf) as [T [HT HP]]. exists kw_SGTYPE, T, KwSignalType. split; [exact HT|]. split; [reflexivity|]. split; [reflexivity|].
     cbn [parse_section]. rewrite HP. reflexivity.
-  - destruct (parse_comment_ok x rest Hwf) as [T [HT HP]]. exists kw_CM, T, KwComment. split; [exact HT|]. split; [reflexivity|]. split; [reflexivity|].
+  - destruct (parse_comment_ok up x rest Hwf) as [T [HT HP]]. exists kw_CM, T, KwComment. split; [exact HT|]. split; [reflexivity|]. split; [reflexivity|].
     cbn [parse_section]. rewrite HP. reflexivity.
   - destruct (parse_attribute_ok fmt prs hex Horacle x rest Hwf) as [T [HT HP]]. exists kw_BA_DEF, T, KwAttribute. split; [exact HT|]. split; [reflexivity|]. split; [reflexivity|].
     cbn [parse_section]. rewrite HP. reflexivity.
-  - destruct (parse_attr_default_ok fmt prs hex Horacle x rest Hwf) as [T [HT HP]]. exists kw_BA_DEF_DEF, T, KwAttributeDefault. split; [exact HT|]. split; [reflexivity|]. split; [reflexivity|].
+  - destruct (parse_attr_default_ok up fmt prs hex Horacle x rest Hwf) as [T [HT HP]]. exists kw_BA_DEF_DEF, T, KwAttributeDefault. split; [exact HT|]. split; [reflexivity|]. split; [reflexivity|].
     cbn [parse_section]. rewrite HP. reflexivity.
-  - destruct (parse_attr_value_ok fmt prs hex Horacle x rest Hwf) as [T [HT HP]]. exists kw_BA, T, KwAttributeValue. split; [exact HT|]. split; [reflexivity|]. split; [reflexivity|].
+  - destruct (parse_attr_value_ok up fmt prs hex Horacle x rest Hwf) as [T [HT HP]]. exists kw_BA, T, KwAttributeValue. split; [exact HT|]. split; [reflexivity|]. split; [reflexivity|].
     cbn [parse_section]. rewrite HP. reflexivity.
-  - destruct (parse_value_encoding_ok x rest Hwf) as [T [HT HP]]. exists kw_VAL, T, KwValueEncoding. split; [exact HT|]. split; [reflexivity|]. split; [reflexivity|].
+  - destruct (parse_value_encoding_ok up x rest Hwf) as [T [HT HP]]. exists kw_VAL, T, KwValueEncoding. split; [exact HT|]. split; [reflexivity|]. split; [reflexivity|].
     cbn [parse_section]. rewrite HP. reflexivity.
-  - destruct (parse_signal_group_ok x rest Hwf) as [T [HT HP]]. exists kw_SIG_GROUP, T, KwSignalGroup. split; [exact HT|]. split; [reflexivity|]. split; [reflexivity|].
+  - destruct (parse_signal_group_ok up x rest Hwf) as [T [HT HP]]. exists kw_SIG_GROUP, T, KwSignalGroup. split; [exact HT|]. split; [reflexivity|]. split; [reflexivity|].
     cbn [parse_section]. rewrite HP. reflexivity.
-  - destruct (parse_sig_ext_value_type_ok x rest Hwf) as [T [HT HP]]. exists kw_SIG_VALTYPE, T, KwSignalValueType. split; [exact HT|]. split; [reflexivity|]. split; [reflexivity|].
+  - destruct (parse_sig_ext_value_type_ok up x rest Hwf) as [T [HT HP]]. exists kw_SIG_VALTYPE, T, KwSignalValueType. split; [exact HT|]. split; [reflexivity|]. split; [reflexivity|].
     cbn [parse_section]. rewrite HP. reflexivity.
-  - destruct (parse_ext_mux_ok x rest Hwf) as [T [HT HP]]. exists kw_SG_MUL_VAL, T, KwExtendedMux. split; [exact HT|]. split; [reflexivity|]. split; [reflexivity|].
+  - destruct (parse_ext_mux_ok up x rest Hwf) as [T [HT HP]]. exists kw_SG_MUL_VAL, T, KwExtendedMux. split; [exact HT|]. split; [reflexivity|]. split; [reflexivity|].
     cbn [parse_section]. rewrite HP. reflexivity.
 Qed.
 
@@ -205,7 +206,7 @@ Proof.
 Qed.
 
 Definition wf_header (f : file) : Prop :=
-  expr_string (ver_of f) = true /\ wf_ns (ns_of f) /\ wf_bs (bs_of f) /\ idents_ok (bu_of f).
+  expr_string (ver_of f) = true /\ wf_ns (ns_of f) /\ wf_bs (bs_of f) /\ idents_ok up (bu_of f).
 
 Definition header_pieces (f : file) : list piece :=
   w_version (ver_of f) ++ w_new_symbols (ns_of f) ++ w_bit_timing (bs_of f) ++ w_nodes (bu_of f).
